@@ -13,7 +13,11 @@ Search (oracle: NumPy values + the documented resolution of the spec followed by
   rechunk of rechunk), unknown sizes (allowed along unchanged axes, ValueError along changed ones), and rechunk at
   random positions of random programs.
 Failure signatures: rechunk:chunks, rechunk:chunks:optimize[-drops-balance|-size1-zero-width], rechunk:values, rechunk:raises, rechunk:raises:zero-width,
-  rechunk:unknown-values, rechunk:unknown-not-refused, rechunk:unknown-raises, program:values, program:chunks, program:raises.
+  rechunk:unknown-values, rechunk:unknown-not-refused, rechunk:unknown-raises, program:values, program:chunks, program:raises,
+  rechunk:nested:*, rechunk:dict-none:*, rechunk:history:* (each :chunks / :optimize / :values / :raises).
+Extra classes: nested rechunks (balance at either level, above elemwise/transpose/...), dict specs with an explicit None on a
+  multi-chunk axis (negative keys, above elemwise, unknown sizes), history (same array, same resolved spec, with and without
+  balance, both alive); for each: advertised .chunks == documented == optimized .chunks == shapes of the produced blocks.
 """
 from __future__ import annotations
 
@@ -348,6 +352,247 @@ def expected_known_axes(case, spec):
         else:
             out.append(normalize_chunks((v,), (shape[ax],), dtype=np.int64)[0])
     return tuple(out)
+
+
+# ------------------------------------------------- nested rechunks, explicit None, history
+
+def documented_chunks(xchunks, shape, dtype, spec, kw):
+    """The documented layout of x.rechunk(spec, **kw): resolution + normalize_chunks, then (balance=True) each
+    axis through _balance_chunksizes (that helper is tied to the Lean model by the rp.balance correspondence)."""
+    from dask_array import _rechunk as R
+
+    want = expected_chunks(xchunks, shape, dtype, spec, kw.get("block_size_limit"))
+    if kw.get("balance"):
+        with warnings.catch_warnings():
+            warnings.simplefilter("ignore")
+            want = tuple(tuple(int(v) for v in R._balance_chunksizes(c)) for c in want)
+    return tuple(tuple(c) for c in want)
+
+
+def block_chunks(y):
+    """Chunks as the PRODUCED blocks define them (graph executed, one shape per key)."""
+    import dask
+    from dask.core import flatten
+
+    keys = list(flatten(y.__dask_keys__()))
+    res = dask.get(dict(y.__dask_graph__()), keys)
+    shapes = {k[1:]: np.asarray(r).shape for k, r in zip(keys, res)}
+    nd = y.ndim
+    nb = [max(i[d] for i in shapes) + 1 for d in range(nd)] if nd else []
+    out = []
+    for d in range(nd):
+        out.append(tuple(shapes[tuple(i if e == d else 0 for e in range(nd))][d] for i in range(nb[d])))
+    for idx, shp in shapes.items():
+        if tuple(out[d][idx[d]] for d in range(nd)) != tuple(shp):
+            return None
+    return tuple(out)
+
+
+def verify_layout(ctx, sig, case, y, want, ref, what):
+    """advertised .chunks == documented == optimized .chunks == per-block shapes; values == NumPy."""
+    try:
+        got = tuple(tuple(c) for c in y.chunks)
+        opt = tuple(tuple(c) for c in y.optimize().chunks)
+        blk = block_chunks(y)
+        val = y.compute()
+    except EXC as e:
+        ctx.fail(sig + ":raises", dict(case, error=repr(e), which=what), "a rechunk that the documentation accepts raises")
+        return False
+    same = lambda a, b_: len(a) == len(b_) and all(
+        len(p) == len(q) and all(u == v or (isinstance(u, float) and isinstance(v, float) and math.isnan(u) and math.isnan(v))
+                                 for u, v in zip(p, q)) for p, q in zip(a, b_))
+    if want is not None and not same(got, want):
+        ctx.fail(sig + ":chunks", dict(case, which=what, got=repr(got), want=repr(want)), "advertised .chunks differ from the documented layout")
+        return False
+    known = not any(isinstance(c, float) and math.isnan(c) for dim in got for c in dim)
+    if not same(opt, got) or (known and blk is not None and blk != got) or (known and blk is None):
+        ctx.fail(sig + ":optimize", dict(case, which=what, advertised=repr(got), optimized=repr(opt), blocks=repr(blk)),
+                 "advertised .chunks, optimized .chunks and the shapes of the produced blocks disagree")
+        return False
+    if ref is not None and (np.asarray(val).shape != ref.shape or not np.array_equal(val, ref)):
+        ctx.fail(sig + ":values", dict(case, which=what, got=np.asarray(val).tolist(), want=ref.tolist()), "values change")
+        return False
+    return True
+
+
+def check_nested_case(ctx, case):
+    """x.rechunk(a, **kwa).rechunk(b, **kwb): each level has its own documented layout."""
+    with warnings.catch_warnings():
+        warnings.simplefilter("ignore")
+        try:
+            b, ref = build(case)
+        except EXC:
+            return
+        sa, sb = dec_spec(case["spec_a"]), dec_spec(case["spec_b"])
+        kwa, kwb = dict(case["kw_a"]), dict(case["kw_b"])
+        try:
+            want1 = documented_chunks(b.chunks, b.shape, b.dtype, sa, kwa)
+            want2 = documented_chunks(want1, b.shape, b.dtype, sb, kwb)
+        except Exception:
+            return
+        try:
+            y1 = b.rechunk(sa, **kwa)
+            y2 = y1.rechunk(sb, **kwb)
+        except EXC as e:
+            ctx.fail("rechunk:nested:raises", dict(case, error=repr(e)), "nested rechunk raises")
+            return
+        ctx.count(("nested", case["wrap"], bool(kwa.get("balance")), bool(kwb.get("balance")), want1 != tuple(map(tuple, b.chunks)), want2 != want1))
+        if verify_layout(ctx, "rechunk:nested", case, y2, want2, ref, "outer"):
+            verify_layout(ctx, "rechunk:nested", case, y1, want1, ref, "inner (still alive)")
+
+
+def check_dictnone_case(ctx, case):
+    """A dict spec with an explicit None keeps that axis' current chunks."""
+    import dask_array as da
+
+    with warnings.catch_warnings():
+        warnings.simplefilter("ignore")
+        spec = dec_spec(case["spec"])
+        if case.get("mask") is not None:
+            shape = tuple(case["shape"])
+            data = (np.arange(int(np.prod(shape)), dtype=np.int64) * 7 % 113).reshape(shape)
+            x = da.from_array(data, chunks=tuple(tuple(c) for c in case["chunks"]))
+            mask = np.array(case["mask"], dtype=bool)
+            b = x[da.from_array(mask, chunks=(tuple(case["chunks"][0]),))]
+            if case["wrap"] == "elem":
+                b, ref = b * 2 + 1, data[mask] * 2 + 1
+            else:
+                ref = data[mask]
+        else:
+            try:
+                b, ref = build(case)
+            except EXC:
+                return
+        nd = b.ndim
+        keep = [(k + nd if k < 0 else k) for k, v in spec.items() if v is None]
+        try:
+            y = b.rechunk(spec)
+        except EXC as e:
+            ctx.fail("rechunk:dict-none:raises", dict(case, error=repr(e)), "a dict spec with an explicit None raises")
+            return
+        ctx.count(("dict-none", case["wrap"], case.get("mask") is not None, any(k < 0 for k in spec), len(keep)))
+        want = list(b.chunks)
+        for k, v in spec.items():
+            ax = k + nd if k < 0 else k
+            if v is not None:
+                from dask_array._core_utils import normalize_chunks
+
+                want[ax] = normalize_chunks((v,), (b.shape[ax],), dtype=b.dtype)[0]
+        verify_layout(ctx, "rechunk:dict-none", case, y, tuple(tuple(c) for c in want), ref, "dict with None")
+
+
+def check_history_case(ctx, case):
+    """Two rechunks of the SAME array to the same resolved spec, with and without balance, both alive."""
+    with warnings.catch_warnings():
+        warnings.simplefilter("ignore")
+        try:
+            b, ref = build(case)
+        except EXC:
+            return
+        spec = dec_spec(case["spec"])
+        try:
+            want_plain = documented_chunks(b.chunks, b.shape, b.dtype, spec, {})
+            want_bal = documented_chunks(b.chunks, b.shape, b.dtype, spec, {"balance": True})
+        except Exception:
+            return
+        try:
+            if case["balance_first"]:
+                yb = b.rechunk(spec, balance=True)
+                yp = b.rechunk(spec)
+            else:
+                yp = b.rechunk(spec)
+                yb = b.rechunk(spec, balance=True)
+        except EXC as e:
+            ctx.fail("rechunk:history:raises", dict(case, error=repr(e)), "rechunk raises")
+            return
+        ctx.count(("history", case["wrap"], case["balance_first"], want_plain != want_bal))
+        if verify_layout(ctx, "rechunk:history", case, yp, want_plain, ref, "second/first call without balance"):
+            verify_layout(ctx, "rechunk:history", case, yb, want_bal, ref, "call with balance=True")
+
+
+def effective_balance_spec(rng, shape):
+    """int per axis with n % k != 0 where possible (so that balancing changes the layout)."""
+    return tuple(rng.choice([k for k in range(2, n) if n % k] or [max(1, n)]) if n > 2 else -1 for n in shape)
+
+
+def search_extra(ctx):
+    rng = ctx.rng
+    wraps = ("io", "blk", "elem", "tr", "exp", "cat")
+
+    def base(maxdim):
+        case = rand_case(rng, maxdim)
+        for _ in range(20):
+            if case["wrap"] in wraps:
+                return case
+            case = rand_case(rng, maxdim)
+        case["wrap"] = "blk"
+        return case
+
+    # (1) nested rechunks
+    for i in range(ctx.scale(130, 2500)):
+        case = base(rng.choice([7, 10, 12, 13]))
+        try:
+            b, _ = build(case)
+        except EXC:
+            continue
+        mode = rng.choice(["bal-inner", "bal-outer", "both", "none"])
+        sa = effective_balance_spec(rng, b.shape) if mode in ("bal-inner", "both") else rand_spec(rng, b.shape)[1]
+        if mode in ("bal-outer", "both"):
+            sb = effective_balance_spec(rng, b.shape)
+        else:
+            sb = tuple(tuple(gen.rand_chunks(rng, n)) for n in b.shape) if rng.random() < 0.6 else rng.randint(1, max(b.shape))
+        case.update(kind="nested", spec_a=enc_spec(sa), kw_a={"balance": True} if mode in ("bal-inner", "both") else {},
+                    spec_b=enc_spec(sb), kw_b={"balance": True} if mode in ("bal-outer", "both") else {})
+        check_nested_case(ctx, case)
+        if i % 60 == 0:
+            ctx.sample({"case": case})
+    # (2) dict specs with an explicit None on a multi-chunk axis
+    for i in range(ctx.scale(90, 1500)):
+        unknown = rng.random() < 0.3
+        if unknown:
+            rank = rng.choice([2, 3])
+            shape = [rng.randint(2, 8) for _ in range(rank)]
+            chunks = [list(gen.rand_chunks(rng, s)) for s in shape]
+            while len(chunks[0]) < 2:
+                chunks[0] = list(gen.rand_chunks(rng, shape[0]))
+            case = {"kind": "dictnone", "shape": shape, "chunks": chunks, "mask": [rng.random() < 0.6 for _ in range(shape[0])],
+                    "wrap": rng.choice(["blk", "elem"])}
+            nd, keep_ax, cur = rank, 0, shape
+        else:
+            case = base(rng.choice([6, 9, 12]))
+            case["kind"] = "dictnone"
+            try:
+                b, _ = build(case)
+            except EXC:
+                continue
+            multi = [a for a in range(b.ndim) if len(b.chunks[a]) > 1]
+            if not multi or b.ndim < 2:
+                continue
+            nd, keep_ax, cur = b.ndim, rng.choice(multi), b.shape
+        spec = {}
+        for a in range(nd):
+            key = a - nd if rng.random() < 0.4 else a
+            if a == keep_ax:
+                spec[key] = None
+            elif rng.random() < 0.8:
+                spec[key] = rng.choice([rng.randint(1, max(1, cur[a])), -1, tuple(gen.rand_chunks(rng, cur[a])), None])
+        if all(v is None for v in spec.values()) and len(spec) == nd:
+            continue
+        case["spec"] = enc_spec(spec)
+        check_dictnone_case(ctx, case)
+        if i % 45 == 0:
+            ctx.sample({"case": case})
+    # (3) history: same array, same resolved spec, with and without balance, both alive
+    for i in range(ctx.scale(70, 1200)):
+        case = base(rng.choice([7, 10, 13]))
+        try:
+            b, _ = build(case)
+        except EXC:
+            continue
+        case.update(kind="history", spec=enc_spec(effective_balance_spec(rng, b.shape)), balance_first=rng.random() < 0.5)
+        check_history_case(ctx, case)
+        if i % 35 == 0:
+            ctx.sample({"case": case})
 
 
 # ------------------------------------------------------------------------ correspondence
@@ -726,6 +971,12 @@ def run(ctx, replay=None):
             check_spec_case(ctx, case)
         elif k == "unknown":
             check_unknown_case(ctx, case)
+        elif k == "nested":
+            check_nested_case(ctx, case)
+        elif k == "dictnone":
+            check_dictnone_case(ctx, case)
+        elif k == "history":
+            check_history_case(ctx, case)
         elif k == "program":
             check_program(ctx, case["prog"])
         elif k == "layer":
@@ -742,5 +993,6 @@ def run(ctx, replay=None):
     corr_balance(ctx, R)
     corr_layer(ctx, R)
     search(ctx)
+    search_extra(ctx)
     if ctx.disagreements:
         targeted(ctx, R)
